@@ -107,9 +107,20 @@ def grep_forbidden(files):
             src = open(p, encoding="utf-8").read()
         except FileNotFoundError:
             continue
-        src_nc = strip_coq_comments(src)
+        src_nc = strip_coq_strings(strip_coq_comments(src))
+        # Variable / Hypothesis are allowed inside a Section only (outside they declare an axiom)
+        depth = 0
+        sect = []
+        for ln in src_nc.split("\n"):
+            if re.match(r"\s*Section\s+\w+", ln):
+                depth += 1
+            elif re.match(r"\s*End\s+\w+", ln) and depth > 0:
+                depth -= 1
+            sect.append(depth)
         for m in FORBIDDEN.finditer(src_nc):
             line = src_nc.count("\n", 0, m.start()) + 1
+            if m.group(0) in ("Variable", "Variables", "Hypothesis", "Hypotheses") and sect[line - 1] > 0:
+                continue
             hits.append("%s:%d:%s" % (rel, line, m.group(0)))
     return hits
 
@@ -131,6 +142,10 @@ def strip_coq_comments(src):
             out.append(src[i] if depth == 0 or src[i] == "\n" else " ")
             i += 1
     return "".join(out)
+
+
+def strip_coq_strings(src):
+    return re.sub(r'"(?:[^"]|"")*"', '""', src)
 
 
 def coq_project_files():
@@ -204,17 +219,36 @@ def harness_run(vh, cmd, cases, timeout=600, shards=NCPU, args=()):
     chunks = [cases[i::n] for i in range(n)]
 
     def one(chunk):
-        inp = "\n".join(json.dumps(c) for c in chunk) + "\n"
-        p = subprocess.run([vh, cmd] + list(args), input=inp, stdout=subprocess.PIPE, stderr=subprocess.PIPE, text=True, timeout=timeout)
-        lines = [l for l in p.stdout.splitlines() if l.strip()]
         res = []
-        for l in lines:
-            res.append(json.loads(l))
-        if len(res) != len(chunk):
-            # the process died (abort / stack overflow / hang): attribute it to the first unanswered case
-            res.append({"crash": {"rc": p.returncode, "stderr": p.stderr[-500:]}})
-            while len(res) < len(chunk):
-                res.append({"crash": "not-run"})
+        rest = list(chunk)
+        restarts = 0
+        while rest:
+            inp = "\n".join(json.dumps(c) for c in rest) + "\n"
+            p = subprocess.Popen([vh, cmd] + list(args), stdin=subprocess.PIPE, stdout=subprocess.PIPE, stderr=subprocess.PIPE, text=True)
+            hung = False
+            try:
+                so, se = p.communicate(inp, timeout=timeout)
+            except subprocess.TimeoutExpired:
+                p.kill()
+                so, se = p.communicate()
+                hung = True
+            got = []
+            for l in so.splitlines():
+                if l.strip():
+                    try:
+                        got.append(json.loads(l))
+                    except ValueError:
+                        break
+            res.extend(got[:len(rest)])
+            if len(got) >= len(rest):
+                break
+            # the process hung or died (abort, stack overflow) on the first unanswered case
+            res.append({"hang": timeout} if hung else {"crash": {"rc": p.returncode, "stderr": se[-500:]}})
+            rest = rest[len(got) + 1:]
+            restarts += 1
+            if restarts >= 2:
+                res.extend({"crash": "not-run"} for _ in rest)
+                break
         return res
 
     with concurrent.futures.ThreadPoolExecutor(max_workers=n) as ex:
@@ -252,19 +286,19 @@ def coq_option(x):
     return "None" if x is None else "(Some %s)" % x
 
 
-def coq_eval_mismatches(name, header, case_terms, eq_fn, model_fn, case_type, shard_size=1000, timeout=900):
+def coq_eval_mismatches(name, header, case_terms, eq_fn, model_fn, case_type, shard_size=1000, timeout=900, scope="N_scope"):
     """For each (input_term, expected_term) evaluate `eq_fn (model_fn input) expected` inside Coq (vm_compute)
     and return the indices where it is false.  One coqc per shard, run in parallel."""
     shards = [case_terms[i:i + shard_size] for i in range(0, len(case_terms), shard_size)]
 
     def one(k):
-        body = [header, "Open Scope N_scope.",
+        body = [header, "Open Scope %s." % scope,
                 "Definition cases : list (%s) := [" % case_type]
         body.append(";\n".join("(%s, %s)" % (a, b) for a, b in shards[k]))
         body.append("].")
         body.append("Fixpoint mism {A B} (f : A -> B -> bool) (l : list (A * B)) (i : N) : list N :=\n"
-                    "  match l with [] => [] | (a, b) :: r => if f a b then mism f r (i + 1) else i :: mism f r (i + 1) end.")
-        body.append("Definition result := mism (fun a b => %s (%s a) b) cases 0." % (eq_fn, model_fn))
+                    "  match l with [] => [] | (a, b) :: r => if f a b then mism f r (i + 1)%N else i :: mism f r (i + 1)%N end.")
+        body.append("Definition result := mism (fun a b => %s (%s a) b) cases 0%%N." % (eq_fn, model_fn))
         body.append('Goal True. let r := eval vm_compute in result in idtac "@@MISMATCH" r. Abort.')
         rc, out = coqc_scratch("%s_%d" % (name, k), "\n".join(body), timeout=timeout)
         if rc != 0 or "@@MISMATCH" not in out:
@@ -277,9 +311,9 @@ def coq_eval_mismatches(name, header, case_terms, eq_fn, model_fn, case_type, sh
     return sorted(i for p in parts for i in p)
 
 
-def coq_eval_terms(name, header, terms, timeout=600):
+def coq_eval_terms(name, header, terms, timeout=600, scope="N_scope"):
     """Evaluate each term with vm_compute and return Coq's printed results (strings), for replay files."""
-    body = [header, "Open Scope N_scope."]
+    body = [header, "Open Scope %s." % scope]
     for i, t in enumerate(terms):
         body.append('Goal True. let r := eval vm_compute in (%s) in idtac "@@R%d" r "@@E". Abort.' % (t, i))
     rc, out = coqc_scratch(name, "\n".join(body), timeout=timeout)
@@ -328,7 +362,9 @@ class Ctx:
             self.coverage["samples"].append(x)
 
     def violation(self, summary, replay):
-        self.violations.append((summary, replay))
+        self.nviol_total = getattr(self, "nviol_total", 0) + 1
+        if len(self.violations) < 5:   # a handful of replay files is enough; the total is kept in the evidence
+            self.violations.append((summary, replay))
 
     def broke(self, leg, name, detail):
         self.broken.append((leg, name, detail))
